@@ -36,56 +36,117 @@ func c01Space(tier string) (exprs []*refsem.E, docs []*val.V, bound string) {
 	return
 }
 
-func c01Run(c *fw.Ctx) error {
-	exprs, docs, bound := c01Space(c.Tier)
-	c.Res.Bound = bound
-	reduced := 0
-	for i, e := range exprs {
-		if !c.Mine(int64(i)) {
-			continue
+// c01Streams: several nodes of different shapes flow through one operator (each operator must treat every node of the stream
+// by itself: bounds, lengths and keys are per node), documents are pairs and triples from a pool of differently sized containers.
+func c01Streams(rich bool) (exprs []*refsem.E, docs []*val.V) {
+	var pool []*val.V
+	for _, t := range []string{`[]`, `[1]`, `[1, 2]`, `[3, 1, 2, 1]`, `{}`, `{"a": 1}`, `{"b": [1, 2], "a": 2}`, `"ab"`, `2`, `null`} {
+		pool = append(pool, fromJSONText(t))
+	}
+	for _, x := range pool {
+		for _, y := range pool {
+			docs = append(docs, val.SeqV(x.Copy(), y.Copy()))
+			docs = append(docs, val.MapV(val.StrV("a"), x.Copy(), val.StrV("b"), y.Copy()))
 		}
-		if c.Expired() {
-			break
-		}
-		text := e.String()
-		parsed, err, pan := impl.Parse(text)
-		if err != nil || pan != nil {
-			c.Violation("parse-error:"+text, int64(i), exprCase{Expr: text, AST: e, Doc: "null", Kind: "parse-error"}, fmt.Sprintf("well-formed expression rejected: %v %v", err, pan))
-			continue
-		}
-		nontrivialExpr := e.Op != "self"
-		for _, d := range docs {
-			r := compareCase(e, parsed, d, true)
-			c.Eval(1)
-			c.Outcome(r.Outcome)
-			switch r.Kind {
-			case "":
-				c.Validated(1)
-				if r.Defined && nontrivialExpr {
-					c.Nontrivial(text + "\x00" + d.JSON())
-				}
-				if r.Defined && i%9973 == 7 {
-					c.Sample(map[string]string{"expr": text, "doc": d.JSON(), "results": r.Outcome})
-				}
-			case "undef":
-				c.Count("undefined_by_reference", 1)
-			default:
-				c.Validated(1)
-				c.Count("mismatch_"+r.Kind, 1)
-				if reduced > 4000 {
-					c.Count("mismatches_not_reduced", 1)
-					c.Res.Exhaustive = false
-					continue
-				}
-				reduced++
-				re, rd := reduceCase(e, d, r.Kind, true)
-				rp, _, _ := impl.Parse(re.String())
-				rr := compareCase(re, rp, rd, true)
-				c.Violation(r.Kind+":"+re.String(), int64(re.Size())*1000+int64(rd.Size()), exprCase{Expr: re.String(), AST: re, Doc: rd.JSON(), Kind: r.Kind},
-					fmt.Sprintf("expr %q on %s: %s   (first seen as %q on %s)", re.String(), rd.JSON(), rr.Detail, text, d.JSON()))
+	}
+	for _, x := range pool[:4] {
+		for _, y := range pool[:4] {
+			for _, z := range pool[:4] {
+				docs = append(docs, val.SeqV(x.Copy(), y.Copy(), z.Copy()))
 			}
 		}
 	}
+	for _, e := range refsem.CoreAlphabet(true).Enumerate(2) {
+		exprs = append(exprs, refsem.Bin("pipe", refsem.Leaf("splat"), e))
+	}
+	return
+}
+
+// c01Scopes: what a binder (as, reduce) binds is visible in its body only. Every binder with small operands is put in front of
+// every kind of continuation that reads the same name, with and without an outer binding of that name.
+func c01Scopes() (exprs []*refsem.E, docs []*val.V) {
+	leaves := refsem.CoreAlphabet(true).Enumerate(1)
+	v := refsem.Var("x")
+	for _, a := range leaves {
+		for _, b := range leaves {
+			for _, binder := range []*refsem.E{refsem.As(a, "x", b), refsem.Reduce(a, "x", refsem.Lit(val.IntV(0)), b)} {
+				for _, t := range []*refsem.E{
+					refsem.Bin("pipe", binder, v), refsem.Bin("union", binder, v), refsem.Bin("add", binder, v), refsem.Bin("add", v, binder),
+					refsem.Bin("pipe", refsem.Un("collect", binder), v), refsem.Bin("pipe", refsem.Un("select", binder), v),
+				} {
+					exprs = append(exprs, t, refsem.As(refsem.Lit(val.IntV(5)), "x", t))
+				}
+			}
+		}
+	}
+	docs = append(docs, val.Universe(2, val.Sigma(), []string{"a", "b"})...)
+	for _, t := range []string{`[1, 2, 3]`, `{"a": 1, "b": 2}`, `[[1], [2, 3]]`} {
+		docs = append(docs, fromJSONText(t))
+	}
+	return
+}
+
+func c01Run(c *fw.Ctx) error {
+	exprs, docs, bound := c01Space(c.Tier)
+	sExprs, sDocs := c01Streams(true)
+	bExprs, bDocs := c01Scopes()
+	c.Res.Bound = bound + fmt.Sprintf("; streams: `.[] | e` for the %d expressions e of G(2) x %d pair/triple documents from a pool of differently sized containers; scopes: %d binder/continuation expressions x %d documents",
+		len(sExprs), len(sDocs), len(bExprs), len(bDocs))
+	reduced := 0
+	var idx int64
+	space := func(section string, exprs []*refsem.E, docs []*val.V) {
+		for i, e := range exprs {
+			idx++
+			if !c.Mine(idx) {
+				continue
+			}
+			if c.Expired() {
+				break
+			}
+			text := e.String()
+			parsed, err, pan := impl.Parse(text)
+			if err != nil || pan != nil {
+				c.Violation("parse-error:"+text, int64(i), exprCase{Expr: text, AST: e, Doc: "null", Kind: "parse-error"}, fmt.Sprintf("well-formed expression rejected: %v %v", err, pan))
+				continue
+			}
+			nontrivialExpr := e.Op != "self"
+			for _, d := range docs {
+				r := compareCase(e, parsed, d, true)
+				c.Eval(1)
+				c.Count("evaluations_"+section, 1)
+				c.Outcome(r.Outcome)
+				switch r.Kind {
+				case "":
+					c.Validated(1)
+					if r.Defined && nontrivialExpr {
+						c.Nontrivial(text + "\x00" + d.JSON())
+					}
+					if r.Defined && i%9973 == 7 {
+						c.Sample(map[string]string{"expr": text, "doc": d.JSON(), "results": r.Outcome})
+					}
+				case "undef":
+					c.Count("undefined_by_reference", 1)
+				default:
+					c.Validated(1)
+					c.Count("mismatch_"+r.Kind, 1)
+					if reduced > 4000 {
+						c.Count("mismatches_not_reduced", 1)
+						c.Res.Exhaustive = false
+						continue
+					}
+					reduced++
+					re, rd := reduceCase(e, d, r.Kind, true)
+					rp, _, _ := impl.Parse(re.String())
+					rr := compareCase(re, rp, rd, true)
+					c.Violation(r.Kind+":"+re.String(), int64(re.Size())*1000+int64(rd.Size()), exprCase{Expr: re.String(), AST: re, Doc: rd.JSON(), Kind: r.Kind},
+						fmt.Sprintf("expr %q on %s: %s   (first seen as %q on %s)", re.String(), rd.JSON(), rr.Detail, text, d.JSON()))
+				}
+			}
+		}
+	}
+	space("core", exprs, docs)
+	space("streams", sExprs, sDocs)
+	space("scopes", bExprs, bDocs)
 	return nil
 }
 
